@@ -29,6 +29,9 @@ LitTrue(lit, a) == IF lit > 0 THEN a[lit] ELSE ~a[-lit]
 ClauseTrue(c, a) == \E i \in DOMAIN c : LitTrue(c[i], a)
 AllClausesTrue(cs, a) == \A i \in DOMAIN cs : ClauseTrue(cs[i], a)
 Models(nv, cs) == {a \in BoolAsgs(nv) : AllClausesTrue(cs, a)}
+\* satisfiability depends on the variables that occur only (a header may declare a hundred more)
+OccVars(cs) == UNION {{IF cs[i][j] > 0 THEN cs[i][j] ELSE 0 - cs[i][j] : j \in DOMAIN cs[i]} : i \in DOMAIN cs}
+Unsatisfiable(cs) == {a \in [OccVars(cs) -> BOOLEAN] : AllClausesTrue(cs, a)} = {}
 
 \* the assignment a `v` line denotes, if it mentions every variable exactly once
 ModelOk(nv, model) ==
@@ -62,16 +65,15 @@ FirstBadLemma(cs, proof) ==
     IF bad = {} THEN 0 ELSE CHOOSE k \in bad : \A j \in bad : k <= j
 
 TrCnf(ev) ==
-    LET M == Models(ev.nv, ev.clauses) IN
     /\ Mon("C14.StatusKnown", ev.status \in {"SAT", "UNSAT"}, ev.id, <<ev.status, ev.stderr>>)
     /\ Mon("C14.ExpectedStatus", ev.expect = "" \/ ev.status = ev.expect, ev.id, <<ev.status, ev.expect, ev.layout>>)
     /\ IF ev.status = "SAT"
        THEN /\ Mon("C14.SatModelTotal", ModelOk(ev.nv, ev.model), ev.id, ev.model)
-            /\ Mon("C14.SatModel", ~ModelOk(ev.nv, ev.model) \/ AsgOfModel(ev.nv, ev.model) \in M,
+            /\ Mon("C14.SatModel", ~ModelOk(ev.nv, ev.model) \/ AllClausesTrue(ev.clauses, AsgOfModel(ev.nv, ev.model)),
                    ev.id, <<ev.model, ev.clauses>>)
        ELSE TRUE
     /\ IF ev.status = "UNSAT"
-       THEN /\ Mon("C14.UnsatRight", M = {}, ev.id, <<"models", Cardinality(M), ev.clauses>>)
+       THEN /\ Mon("C14.UnsatRight", Unsatisfiable(ev.clauses), ev.id, <<"satisfiable", ev.clauses>>)
             /\ IF ev.hasproof
                THEN /\ Mon("C14.EndsEmpty", ev.proof # <<>> /\ ev.proof[Len(ev.proof)] = <<>>, ev.id, ev.proof)
                     /\ Mon("C14.LemmaRup", ProofOk(ev.clauses, ev.proof, 1), ev.id,
